@@ -71,7 +71,7 @@ Proof.
   - unfold next, stack_inv. cbn [c_frames set_pc set_stack f_stack length]. split; auto; lia.
   - unfold stack_inv. cbn [c_frames set_pc set_stack f_stack length skipn]. split; auto; cbn [skipn] in Hsk; lia.
   - unfold next, stack_inv. cbn [c_frames set_pc set_stack f_stack length]. split; auto; lia.
-  - unfold next, stack_inv. cbn [c_frames set_pc set_stack f_stack length]. split; auto.
+  - destruct n as [|m]; unfold next, stack_inv; cbn [c_frames set_pc set_stack f_stack length]; split; auto; try lia.
     rewrite app_length. cbn [length]. rewrite firstn_length, !skipn_length.
     cbn [instr_pops] in Hsk. lia.
   - unfold next, stack_inv. cbn [c_frames set_pc set_stack set_mem f_stack length]. split; auto; lia.
@@ -98,7 +98,7 @@ Proof.
     + apply started_create_frame in Hs. destruct Hs as [Hc _].
       unfold stack_inv. cbn [c_frames]. rewrite Hc. split; [cbn; lia|].
       constructor; auto. unfold parent_ok. cbn [set_gas set_stack f_stack]. lia.
-    + unfold stack_inv. cbn [c_frames]. split; auto. lia.
+    + unfold stack_inv. cbn [c_frames set_gas set_stack f_stack]. split; auto. lia.
   - (* CREATE2 *)
     match goal with |- context [start_create ?d ?w ?a ?b ?c ?dd ?ee ?ff] =>
       destruct (start_create d w a b c dd ee ff) as [o gb w'|child w'|] eqn:Hs end.
@@ -106,7 +106,7 @@ Proof.
     + apply started_create_frame in Hs. destruct Hs as [Hc _].
       unfold stack_inv. cbn [c_frames]. rewrite Hc. split; [cbn; lia|].
       constructor; auto. unfold parent_ok. cbn [set_gas set_stack f_stack]. lia.
-    + unfold stack_inv. cbn [c_frames]. split; auto. lia.
+    + unfold stack_inv. cbn [c_frames set_gas set_stack f_stack]. split; auto. lia.
   - (* CALL family *)
     assert (Hp : (length (skipn (instr_pops (ICallOp k)) (f_stack f)) + 1 <= 1024)%nat).
     { rewrite skipn_length. destruct k; cbn [instr_pops] in *; lia. }
@@ -116,7 +116,7 @@ Proof.
     + apply started_call_frame in Hs. destruct Hs as [Hc _].
       unfold stack_inv. cbn [c_frames]. rewrite Hc. split; [cbn; lia|].
       constructor; auto.
-    + unfold stack_inv. cbn [c_frames]. split; auto. lia.
+    + unfold stack_inv. cbn [c_frames set_stack f_stack]. split; auto. lia.
   - apply finish_stack; auto.
   - apply finish_stack; auto.
   - apply finish_stack; auto.
@@ -126,10 +126,10 @@ Lemma exec_depth : forall e i f w rest cg,
     (length (f :: rest) <= 1025)%nat -> depth_inv (exec e i f w rest cg).
 Proof.
   intros e i f w rest cg H. unfold depth_inv. cbn [length] in H.
-  destruct i; cbn [exec];
+  destruct i; cbn [exec]; unfold fail; try (destruct n as [|m]);
     try (unfold next; cbn [c_frames length]; lia);
-    try (match goal with |- context [finish ?o ?r ?ff ?ww ?rr] => pose proof (finish_depth o r ff ww rr); lia end).
-  - cbn [c_frames length]; lia.
+    try (match goal with |- context [finish ?o ?r ?ff ?ww ?rr] => pose proof (finish_depth o r ff ww rr); lia end);
+    try (cbn [c_frames length]; lia).
   - match goal with |- context [if ?b then _ else _] => destruct b end.
     + match goal with |- context [finish ?o ?r ?ff ?ww ?rr] => pose proof (finish_depth o r ff ww rr); lia end.
     + unfold next; cbn [c_frames length]; lia.
@@ -161,11 +161,12 @@ Lemma step_cases : forall e c,
     (exists f rest, c_frames c = f :: rest /\
       ((exists er, step e c = fail er f (c_world c) rest) \/
        (step e c = mk_config (f :: rest) (c_world c) Unsupported) \/
-       (exists op info i f' cg, op = cur_op f /\ op_info e op = Some info /\ decode keccak blockhash op = Some i /\
+       (exists op info i f' cg, step e c = exec e i f' (c_world c) rest cg /\
+           op = cur_op f /\ op_info e op = Some info /\ decode keccak blockhash op = Some i /\
            f_stack f' = f_stack f /\ f_static f' = f_static f /\
            oi_min info <= Z.of_nat (length (f_stack f)) <= oi_max info /\
-           (f_static f = true -> oi_writes info = false /\ (op = 241 -> sk (f_stack f) 2 = 0)) /\
-           step e c = exec e i f' (c_world c) rest cg))).
+           (f_static f = true -> oi_writes info = false /\ (op = 241 -> sk (f_stack f) 2 = 0))))).
+
 Proof.
   intros e c. unfold step.
   destruct (c_status c); auto.
@@ -186,16 +187,16 @@ Proof.
     [|left; eexists; reflexivity].
   match goal with |- context [instr_dyn ?a ?b ?c ?d ?ee ?ff] => destruct (instr_dyn a b c d ee ff) as [[[[cost mc] cg]|]|] end.
   - match goal with |- context [if ?b then _ else _] => destruct b end; [left; eexists; reflexivity|].
-    right; right. do 5 eexists. repeat split; eauto; try lia.
+    right; right. do 5 eexists. split; [reflexivity|]. do 6 (split; [first [reflexivity | eassumption | lia]|]). exact Hst.
   - left; eexists; reflexivity.
-  - right; right. do 5 eexists. repeat split; eauto; try lia.
+  - right; right. do 5 eexists. split; [reflexivity|]. do 6 (split; [first [reflexivity | eassumption | lia]|]). exact Hst.
 Qed.
 
 Lemma step_stack_inv : forall e c, stack_inv c -> stack_inv (step e c).
 Proof.
   intros e c H. destruct (step_cases e c) as [Heq|[f [rest [Hf Hc]]]]; [rewrite Heq; exact H|].
   unfold stack_inv in H. rewrite Hf in H. destruct H as [Htop Hrest].
-  destruct Hc as [[er Hs]|[Hs|[op [info [i [f' [cg [Hop [Hinfo [Hdec [Hst [_ [Hb [_ Hs]]]]]]]]]]]]]].
+  destruct Hc as [[er Hs]|[Hs|[op [info [i [f' [cg [Hs [Hop [Hinfo [Hdec [Hst [_ [Hb _]]]]]]]]]]]]]].
   - rewrite Hs. apply finish_stack; auto.
   - rewrite Hs. unfold stack_inv. cbn [c_frames]. auto.
   - rewrite Hs. pose proof (slot_facts_of keccak blockhash e op info i Hinfo Hdec) as SF.
@@ -206,7 +207,7 @@ Lemma step_depth_inv : forall e c, depth_inv c -> depth_inv (step e c).
 Proof.
   intros e c H. destruct (step_cases e c) as [Heq|[f [rest [Hf Hc]]]]; [rewrite Heq; exact H|].
   unfold depth_inv in H. rewrite Hf in H.
-  destruct Hc as [[er Hs]|[Hs|[op [info [i [f' [cg [_ [_ [_ [_ [_ [_ [_ Hs]]]]]]]]]]]]]].
+  destruct Hc as [[er Hs]|[Hs|[op [info [i [f' [cg [Hs _]]]]]]]].
   - rewrite Hs. unfold depth_inv, fail. pose proof (finish_depth (OErr er) [] f (c_world c) rest). cbn [length] in H. lia.
   - rewrite Hs. unfold depth_inv. cbn [c_frames]. exact H.
   - rewrite Hs. apply exec_depth. cbn [length] in *. exact H.
